@@ -1,11 +1,185 @@
-"""implementation side: harness runs, correspondence, monitors (grows with the harness)"""
+"""implementation side: harness runs, monitors, correspondence with the model (DESIGN.md 3.6/3.7)"""
+import os, re, json, time
 from common import *
+import hrun
+
+# which monitor verdicts speak about which property (prefix match)
+OWN = ["dead_exposed", "dup_exposed", "double_drop", "garbage_"]
+ALLOCM = ["layout_mismatch", "double_free", "redzone", "wild_ptr", "null_with_len"]
+RELEVANT = {
+    "C01": ["vec_mismatch", "vec_ret_mismatch", "macro_repeat"],
+    "C02": OWN + ["leak_elem", "leak_block"],
+    "C03": ALLOCM + ["cap_exceeds_block", "leak_block"],
+    "C04": OWN + ALLOCM,
+    "C05": OWN + ALLOCM,
+    "C06": OWN + ALLOCM + ["crash", "vec_mismatch", "iter_protocol", "sentinel_alloc"],
+    "C07": ["capacity_contract", "len_gt_cap", "cap_exceeds_block", "spare_view_wrong", "storage_moved"],
+    "C08": ["lost_overalignment", "misaligned", "walign_"],
+    "C09": ["capacity_contract", "cap_exceeds_block", "len_gt_cap", "hang", "profile_disagreement", "crash"],
+    "C10": ["iter_protocol", "garbage_yielded", "crash"],
+    "C11": ["accepted_out_of_range", "rejected_in_range", "changed_by_rejected_call"],
+    "C12": OWN + ALLOCM + ["iter_protocol", "garbage_yielded", "crash", "clone_shares_storage"],
+    "C14": ["raw_roundtrip_moved", "crash", "len_gt_cap", "cap_exceeds_block"] + OWN,
+    "C15": ["slice_semantics"],
+    "C17": OWN + ALLOCM + ["crash", "leak_block"],
+    "C18": ["crash"],
+}
+
+def relevant(pid, mon):
+    return any(mon.startswith(p) for p in RELEVANT.get(pid, []))
+
+def load_corpus():
+    out = []
+    d = os.path.join(VERIF, "corpus")
+    for f in sorted(os.listdir(d)):
+        if f.endswith(".hist"):
+            for l in open(os.path.join(d, f)):
+                l = l.strip()
+                if l.startswith("H "):
+                    out.append(l)
+    return out
+
+def is_leak_free_stream(line):
+    """no panic script, no forget, no leak op: every element must be destroyed or handed out"""
+    body = line.split("::", 1)[1]
+    hdr = line.split("::", 1)[0]
+    if " dp=" in hdr or " cp=" in hdr or " af=" in hdr:
+        return False
+    for op in body.split(";"):
+        t = op.split()
+        if not t:
+            continue
+        if t[0] in ("forget", "leak"):
+            return False
+        if any("P" in x for x in t[1:] if x.isalpha()):
+            return False
+    return True
+
+def judge(pid, line, res):
+    """verdicts of the implementation-side monitors for one executed history"""
+    v = []
+    h = hrun.header(line)
+    if res["fate"] != "done":
+        kind = "hang" if res["fate"] == "timeout" else "crash"
+        if relevant(pid, kind):
+            v.append("%s:%s" % (kind, res["fate"]))
+    last = None
+    for l in res["lines"]:
+        p = hrun.parse_line(l)
+        if not p:
+            continue
+        last = p
+        for m in p["mon"]:
+            if relevant(pid, m):
+                v.append("%s@%d:%s" % (m, p["k"], p["op"]))
+    if last and last["op"] == "end" and res["fate"] == "done" and is_leak_free_stream(line):
+        led, _, blocks = last["ret"].partition(";")
+        if "L" in led and relevant(pid, "leak_elem"):
+            v.append("leak_elem:" + led)
+        if blocks not in ("[]", "") and relevant(pid, "leak_block"):
+            v.append("leak_block:" + blocks)
+    return v
+
+# ---------------------------------------------------------------- known findings
+
+def next_aligned(n, a):
+    return n if n % a == 0 else n + (a - n % a)
+
+ALIGN_OF = {"1x1": 1, "2x2": 2, "3x1": 1, "8x8": 8, "24x8": 8, "16x16": 16, "64x64": 64, "2048x8": 8, "u8": 1}
+
+def finding_class(pid, line):
+    """classes of recorded known findings a history falls into (computed from the history text)"""
+    cls = hrun.header(line).get("cls", "8x8").rstrip("c")
+    ea = ALIGN_OF.get(cls, 8)
+    out = set()
+    body = line.split("::", 1)[1]
+    aligned = {}
+    for op in body.split(";"):
+        t = op.split()
+        if not t:
+            continue
+        if t[0] == "walign" and len(t) > 3 and t[3].isdigit():
+            aligned[t[1]] = int(t[3])
+        if t[0] in ("splitoff", "drainvec") and len(t) > 2 and t[1] in aligned:
+            aligned[t[2]] = aligned[t[1]]
+        if t[0] == "rawrt" and t[1] in aligned:
+            a = aligned[t[1]]
+            if a > 0 and next_aligned(24, a) != next_aligned(24, max(ea, 1)):
+                out.add("raw_roundtrip_header_distance")
+    return out
 
 def match_known(pid, v, known):
     for k in known.get("findings", []):
-        if k.get("property") == pid and k.get("class") and k["class"] == v.get("class"):
-            return k.get("what", k["class"])
+        if k.get("property") == pid and k.get("class") in v.get("classes", []):
+            return "%s (class %s; witness %s)" % (k.get("what", ""), k["class"], k.get("witness", "?"))
     return None
 
+# ---------------------------------------------------------------- driver
+
 def run(ctx, P, cs):
-    return {"violations": [], "coverage": {}}
+    pid = ctx.pid
+    t0 = time.time()
+    viol, cov = [], {}
+    bins, blog = {}, {}
+    for prof in ("d", "r"):
+        b, log_ = hrun.build(prof)
+        bins[prof], blog[prof] = b, log_
+    if not bins["d"] or not bins["r"]:
+        viol.append({"tag": "harness_build", "kind": "harness does not build against /repo",
+                     "detail": (blog["d"] or blog["r"])[:3000], "classes": []})
+        return {"violations": viol, "coverage": {"harness_build": "failed"}}
+    import streams
+    hs = streams.histories_for(ctx, P)           # list of history lines
+    seen, lines = set(), []
+    for l in hs:
+        if l not in seen:
+            seen.add(l)
+            lines.append(l)
+    nruns, nontrivial, ops_hist, fate_hist, samples = 0, set(), {}, {}, []
+    batch = {"d": [], "r": []}
+    child = []
+    for l in lines:
+        h = hrun.header(l)
+        for prof in h.get("prof", "d"):
+            if h.get("child") == "1":
+                child.append((prof, l))
+            else:
+                batch[prof].append(l)
+    results = []   # (prof, line, res)
+    for prof in ("d", "r"):
+        if batch[prof]:
+            r = hrun.run_batch(bins[prof], batch[prof])
+            for l in batch[prof]:
+                if hrun.hid(l) in r:
+                    results.append((prof, l, r[hrun.hid(l)]))
+    for prof, l in child:
+        results.append((prof, l, hrun.run_child(bins[prof], l)))
+    # model side + comparison
+    import model
+    mres = model.compare(ctx, P, results)
+    for prof, l, res in results:
+        nruns += 1
+        fate_hist[res["fate"]] = fate_hist.get(res["fate"], 0) + 1
+        body = l.split("::", 1)[1]
+        opsn = [o.split()[0] for o in body.split(";") if o.split()]
+        for o in opsn:
+            ops_hist[o] = ops_hist.get(o, 0) + 1
+        if len(opsn) >= 2:
+            nontrivial.add(l.split(" ", 2)[2] if l.count(" ") >= 2 else l)
+        vs = judge(pid, l, res)
+        if vs:
+            viol.append({"tag": "monitor_" + hrun.hid(l), "kind": "implementation-side monitor", "profile": prof,
+                         "history": l, "verdicts": vs, "fate": res["fate"], "trace": res["lines"][-12:],
+                         "classes": sorted(finding_class(pid, l)),
+                         "replay_cmd": "%s one '%s'" % (bins[prof], l)})
+    for mv in mres.get("violations", []):
+        viol.append(mv)
+    for prof, l, res in results[:3]:
+        samples.append({"history": l, "profile": prof, "fate": res["fate"], "trace_tail": res["lines"][-3:]})
+    cov = {"evaluations": nruns, "distinct_nontrivial": len(nontrivial),
+           "rule": "histories = committed corpus (runs first) + seeded generator stream of this property; "
+                   "distinct by canonical text after the id; non-trivial = at least two operations",
+           "traces_validated_against_impl": mres.get("compared", 0),
+           "operation_histogram": ops_hist, "fate_histogram": fate_hist, "samples": samples,
+           "model": mres.get("info", {}), "impl_wall_s": round(time.time() - t0, 1)}
+    return {"violations": viol, "coverage": cov}
